@@ -3,7 +3,8 @@
 
 use crate::refopt::{self, norm2, RefLink};
 use crate::Out;
-use linfa::traits::{Fit, Predict};
+use linfa::traits::{Fit, Predict, PredictInplace};
+use linfa::ParamGuard;
 use crate::layout::{expand, lay};
 use linfa::DatasetBase;
 use linfa_linear::{LinearError, Link, TweedieRegressor};
@@ -33,9 +34,68 @@ pub struct TwCase {
     /// element type of the subject: f64 | f32
     #[serde(default = "crate::f64_name")]
     pub float: String,
+    /// builder history: order in which the six setters (0 alpha, 1 fit_intercept, 2 power, 3 link, 4 max_iter,
+    /// 5 tol) are called (None = canonical 0..5), whether every field is first written with a decoy value, and the
+    /// constructor (params | new | default)
+    #[serde(default)]
+    pub setter_order: Option<Vec<u8>>,
+    #[serde(default)]
+    pub decoys: bool,
+    #[serde(default = "crate::default_ctor")]
+    pub ctor: String,
+    /// builder cases: also fit with that history and compare bit-wise with the canonical history
+    #[serde(default)]
+    pub builder_fit: bool,
 }
 
+fn link_of(name: &str) -> Link {
+    match name {
+        "identity" => Link::Identity,
+        "log" => Link::Log,
+        "logit" => Link::Logit,
+        _ => panic!("bad link"),
+    }
+}
+
+macro_rules! build_impl {
+    ($name:ident, $F:ty) => {
+        fn $name(case: &TwCase, order: &[u8], decoys: bool, ctor: &str) -> linfa_linear::TweedieRegressorParams<$F> {
+            let mut p = match ctor {
+                "new" => linfa_linear::TweedieRegressorParams::<$F>::new(),
+                "params" => TweedieRegressor::<$F>::params(),
+                _ => linfa_linear::TweedieRegressorParams::<$F>::default(),
+            };
+            for pass in 0..2 {
+                if pass == 0 && !decoys {
+                    continue;
+                }
+                let decoy = pass == 0;
+                for &s in order {
+                    p = match s {
+                        0 => p.alpha(if decoy { 7.5 } else { case.alpha as $F }),
+                        1 => p.fit_intercept(if decoy { !case.intercept } else { case.intercept }),
+                        2 => p.power(if decoy { 2.5 } else { case.power as $F }),
+                        3 => p.link(if decoy { if case.link == "logit" { Link::Log } else { Link::Logit } } else { link_of(&case.link) }),
+                        4 => p.max_iter(if decoy { 3 } else { case.max_iter }),
+                        _ => p.tol(if decoy { 0.5 } else { case.tol as $F }),
+                    };
+                }
+            }
+            p
+        }
+    };
+}
+build_impl!(build_f64, f64);
+build_impl!(build_f32, f32);
+const CANONICAL: [u8; 6] = [0, 1, 2, 3, 4, 5];
+
 impl TwCase {
+    pub fn builder_variant(&self) -> bool {
+        self.setter_order.is_some() || self.decoys || self.ctor != "default"
+    }
+    fn order(&self) -> Vec<u8> {
+        self.setter_order.clone().unwrap_or(CANONICAL.to_vec())
+    }
     fn is32(&self) -> bool {
         self.float == "f32"
     }
@@ -114,27 +174,15 @@ pub fn tw_queries(x: &[Vec<f64>], w: &[f64], is32: bool) -> Vec<Vec<f64>> {
 }
 
 macro_rules! fit_impl {
-    ($name:ident, $F:ty) => {
+    ($name:ident, $F:ty, $build:ident) => {
         fn $name(case: &TwCase) -> FitRes {
-            let link = match case.link.as_str() {
-                "identity" => Link::Identity,
-                "log" => Link::Log,
-                "logit" => Link::Logit,
-                _ => panic!("bad link"),
-            };
             let xs = case.xs();
             let d = xs[0].len();
             let rows: Vec<Vec<$F>> = xs.iter().map(|r| r.iter().map(|&v| v as $F).collect()).collect();
             let laid = lay(&rows, &case.fit_layout, <$F>::NAN);
             let y: Array1<$F> = Array1::from(case.ys().iter().map(|&v| v as $F).collect::<Vec<$F>>());
             let ds = DatasetBase::new(laid.view(), y);
-            let params = TweedieRegressor::<$F>::params()
-                .alpha(case.alpha as $F)
-                .power(case.power as $F)
-                .link(link)
-                .fit_intercept(case.intercept)
-                .tol(case.tol as $F)
-                .max_iter(case.max_iter);
+            let params = $build(case, &case.order(), case.decoys, &case.ctor);
             match guarded(|| params.fit(&ds)) {
                 Ok(Ok(m)) => {
                     let w: Vec<f64> = m.coef.iter().map(|&v| v as f64).collect();
@@ -144,8 +192,20 @@ macro_rules! fit_impl {
                         let qrows: Vec<Vec<$F>> = queries.iter().map(|r| r.iter().map(|&v| v as $F).collect()).collect();
                         let qlaid = lay(&qrows, &case.query_layout, <$F>::NAN);
                         let q = qlaid.view();
-                        match guarded(|| m.predict(&q)) {
-                            Ok(p) => p.iter().map(|&v| v as f64).collect(),
+                        match guarded(|| {
+                            let plain = m.predict(&q);
+                            // caller-owned buffer full of NaN: every entry must be overwritten
+                            let mut buf: Array1<$F> = Array1::from_elem(plain.len(), <$F>::NAN);
+                            m.predict_inplace(&q, &mut buf);
+                            (plain, buf)
+                        }) {
+                            Ok((p, buf)) => {
+                                let same = p.len() == buf.len() && p.iter().zip(buf.iter()).all(|(a, c)| a.to_bits() == c.to_bits());
+                                let mut v: Vec<f64> = p.iter().map(|&v| v as f64).collect();
+                                // trailing flag: 1.0 = predict_inplace into the poisoned buffer agrees bit-wise with predict
+                                v.push(if same { 1.0 } else { 0.0 });
+                                v
+                            }
                             Err(p) => return FitRes::PredictPanic(p),
                         }
                     } else {
@@ -161,8 +221,8 @@ macro_rules! fit_impl {
         }
     };
 }
-fit_impl!(fit_here_f64, f64);
-fit_impl!(fit_here_f32, f32);
+fit_impl!(fit_here_f64, f64, build_f64);
+fit_impl!(fit_here_f32, f32, build_f32);
 
 /// the real fit + predict, in this process (only ever called in the child)
 pub fn fit_here(case: &TwCase) -> FitRes {
@@ -233,13 +293,50 @@ fn power_class(p: f64) -> &'static str {
 }
 
 pub fn run(case: &TwCase, viols: &mut Vec<Violation>) -> Out {
-    if case.fit_layout == "standard" && case.query_layout == "standard" {
+    let bvar = case.builder_variant();
+    if case.fit_layout == "standard" && case.query_layout == "standard" && !bvar {
         return run_inner(case, viols);
     }
-    // layout case: see binary::run
+    let cj = || serde_json::to_value(crate::Case::Tweedie(case.clone())).unwrap();
+    let sig = if case.ctor != "default" { "tweedie.params.constructor_dependence" } else { "tweedie.params.builder_order_dependence" };
+    if bvar {
+        // (a) the checked parameters must publish the FINAL logical parameter set (no solver involved: in-process)
+        let got: Result<(f64, bool, f64, Link, usize, f64), String> = if case.is32() {
+            build_f32(case, &case.order(), case.decoys, &case.ctor).check().map(|p| (p.alpha() as f64, p.fit_intercept(), p.power() as f64, p.link(), p.max_iter(), p.tol() as f64)).map_err(|e| e.to_string())
+        } else {
+            build_f64(case, &case.order(), case.decoys, &case.ctor).check().map(|p| (p.alpha(), p.fit_intercept(), p.power(), p.link(), p.max_iter(), p.tol())).map_err(|e| e.to_string())
+        };
+        let want = (case.seen(case.alpha), case.intercept, case.seen(case.power), link_of(&case.link), case.max_iter, case.seen(case.tol));
+        match got {
+            Ok(g) if g == want => {}
+            other => {
+                viols.push(Violation::new(
+                    sig,
+                    format!(
+                        "setters in order {:?} (decoys first: {}, constructor {}): the checked parameters publish (alpha, fit_intercept, power, link, max_iter, tol) = {:?}, the final logical parameter set is {:?}",
+                        case.order(), case.decoys, case.ctor, other, want
+                    ),
+                    cj(),
+                ));
+                let mut o = Out::default();
+                o.nontrivial = true;
+                return o;
+            }
+        }
+        if !case.builder_fit {
+            let mut o = Out::default();
+            o.nontrivial = true;
+            o.tag("tweedie_builder_getter_only_cases");
+            return o;
+        }
+    }
+    // variant case: see binary::run
     let mut base = case.clone();
     base.fit_layout = "standard".into();
     base.query_layout = "standard".into();
+    base.setter_order = None;
+    base.decoys = false;
+    base.ctor = "default".into();
     let mut bv = Vec::new();
     let bo = run_inner(&base, &mut bv);
     if !bv.is_empty() || bo.ood {
@@ -248,8 +345,17 @@ pub fn run(case: &TwCase, viols: &mut Vec<Violation>) -> Out {
     }
     let mut lv = Vec::new();
     let o = run_inner(case, &mut lv);
-    for v in lv {
-        viols.push(crate::as_layout_dependence(v, &case.fit_layout, &case.query_layout));
+    if bvar {
+        if lv.is_empty() && o.fingerprint != bo.fingerprint {
+            viols.push(Violation::new(sig, format!("same logical parameter set, setters called in order {:?} (decoys first: {}, constructor {}): coefficients / predictions are not bit-identical to those of the canonical builder order", case.order(), case.decoys, case.ctor), cj()));
+        }
+        for v in lv {
+            viols.push(Violation::new(sig, format!("the canonical builder order passes every check; setters in order {:?} (decoys first: {}, constructor {}): [{}] {}", case.order(), case.decoys, case.ctor, v.sig, v.what), cj()));
+        }
+    } else {
+        for v in lv {
+            viols.push(crate::as_layout_dependence(v, &case.fit_layout, &case.query_layout));
+        }
     }
     o
 }
@@ -326,8 +432,11 @@ fn run_inner(case: &TwCase, viols: &mut Vec<Violation>) -> Out {
     // (link, power) class an honest Err from the solver is accepted; a fit that does not return never is.
     let isolated = needs_isolation(case);
     let fit = fit_isolated(case);
-    let (w, b, pred) = match fit {
-        FitRes::Params(w, b, p) => (w, b, p),
+    let (w, b, pred, inplace_ok) = match fit {
+        FitRes::Params(w, b, mut p) => {
+            let flag = if p.len() > 0 && w.len() == d { p.pop() } else { Some(1.0) };
+            (w, b, p, flag == Some(1.0))
+        }
         FitRes::ErrArgmin(e) if isolated => {
             let _ = e;
             out.tag("tweedie_identity_link_solver_error_accepted");
@@ -447,6 +556,10 @@ fn run_inner(case: &TwCase, viols: &mut Vec<Violation>) -> Out {
         }
     }
 
+    out.fingerprint = w.iter().chain(std::iter::once(&b)).chain(pred.iter()).map(|v| v.to_bits()).collect();
+    if !inplace_ok {
+        viols.push(Violation::new("tweedie.predict_inplace.stale_buffer", "predict_inplace into a caller-owned NaN-filled buffer does not agree bit-wise with predict()".to_string(), cj()));
+    }
     // ---- predictions (the real `predict`, evaluated in the child on tw_queries(x, coef)) ----
     let queries = tw_queries(&xs, &w, is32);
     if pred.len() != queries.len() {
